@@ -29,7 +29,7 @@ PROPERTY_TEXT['C09'] = (
 
 
 @rule('R09.a', ('C09',), 'the run loop tests the stop flag before every '
-      'instruction; stop() clears it and stops the clock', floor=3,
+      'instruction; stop() clears it and then stops the clock', floor=4,
       decides='a stop request issued while the script executes instructions '
               'ends it after at most the instruction in progress')
 def r09a(R):
@@ -50,6 +50,23 @@ def r09a(R):
     R.check(stop, 'stop() stops the clock', stops_clock,
             'Machine.stop does not stop the clock: a script sitting in a delay '
             'or time-of-day wait is not woken up')
+    # order: the flag is down before the clock is stopped. Clock.stop() wakes
+    # the job thread out of its delay; if the flag were still up at that
+    # moment the run loop would fetch and execute further instructions (wait()
+    # no longer blocks once the clock is stopped) until the flag follows.
+    scfg = A.cfg(stop)
+    clears = [n for n in scfg.nodes if n.kind == 'stmt'
+              and isinstance(n.ast, ast.Assign)
+              and self_attr(n.ast.targets[0]) == flag]
+    cstops = A.calls_nodes(stop, 'Clock.stop')
+    p = scfg.find_path([scfg.entry], lambda n: n in cstops, avoid=clears) \
+        if cstops else None
+    R.check(stop, 'self.%s = False before clock.stop()' % flag,
+            bool(cstops) and p is None,
+            'Machine.stop wakes the job thread (Clock.stop) before it clears '
+            'the run flag: the woken script executes further instructions - '
+            'and sends further commands, delays no longer holding it back - '
+            'until the flag is cleared', path=path_text(p) if p else None)
     cfg = A.cfg(run)
     heads = [n for n in cfg.nodes if n.kind == 'loop-head']
     fetch = [n for n in cfg.nodes if 'self._fn_table' in n.text()
